@@ -150,6 +150,11 @@ def kinds(core_only: bool = False, raisers: bool = True):
         ('pad', 2, lambda x, y: P('pad', x, y), 'conv'),
         ('pad3', 3, lambda x, y, z: P('pad', x, y, z), 'conv'),
         ('pad_opt', 2, lambda x, y: P('pad_opt', x, y), 'conv'),
+        ('if_then', 2, lambda x, y: P('if_then', x, y), 'conv'),
+        ('if_then3', 3, lambda x, y, z: P('if_then', x, y, z), 'conv'),
+        ('separated_seq3', 3, lambda s, x, y: P('separated_seq', s, x, y, x), 'conv'),
+        ('separated_seq1', 2, lambda s, x: P('separated_seq', s, x), 'conv'),
+        ('rep_string', 1, lambda x: P('seq', P('rep_string', N(2), C(A_), C(B_)), x), 'conv'),
         ('enable', 1, lambda x: P('enable', x), 'conv'),
         ('disable', 1, lambda x: P('disable', x), 'conv'),
         ('state_c', 1, lambda x: P('state', STATE(0), x), 'state'),
@@ -284,18 +289,26 @@ def systematic(rng: random.Random, gid_prefix: str, kind_filter: Callable[[str, 
     by_kind = {}
     for cb in combos:
         by_kind.setdefault(cb[0], []).append(cb)
-    first, second, rest = [], [], []
+    first, second, third, rest = [], [], [], []
     for kname, cbs in by_kind.items():
         allctf = next((cb for cb in cbs if all(x == ctf for x in cb[2])), None)
         if allctf is None:
             allctf = (kname, cbs[0][1], tuple(ctf for _ in cbs[0][2]))
         first.append(allctf)
         others = [cb for cb in cbs if cb is not allctf]
+        # second: a one-byte atom in every slot, so that also the rules with several slots match completely on short inputs
+        if not eol_probes and len(allctf[2]) > 1:
+            ia = next(i for i, p in enumerate(ps) if p[0] == 'a')
+            alla = next((cb for cb in others if all(x == ia for x in cb[2])), None)
+            if alla is None:
+                alla = (kname, cbs[0][1], tuple(ia for _ in cbs[0][2]))
+            second.append(alla)
+            others = [cb for cb in others if cb is not alla]
         if others:
-            second.append(others[0])
+            third.append(others[0])
             rest.extend(others[1:])
     rng.shuffle(rest)
-    combos = first + second + rest
+    combos = first + second + third + rest
     if max_grammars is not None:
         combos = combos[:max_grammars]
     out = []
